@@ -449,6 +449,10 @@ fn c04_instances(tier: Tier) -> Vec<InstRep> {
                         constraints: vec![ConRep::new(3, if ci % 2 == 0 { LE_ZERO } else { EQ_ZERO }, Some(c.clone())).with_meta("c")],
                         ..Default::default()
                     };
+                    // the decision-variable list is a set: half of the family lists it out of id order
+                    if (ci + usize::from(removed) + usize::from(dep)) % 2 == 1 {
+                        inst.vars = vec![inst.vars[3].clone(), inst.vars[1].clone(), inst.vars[4].clone(), inst.vars[0].clone(), inst.vars[2].clone()];
+                    }
                     if removed {
                         inst.removed.push(RemRep {
                             constraint: ConRep::new(40, LE_ZERO, Some(cf[(ci + 1) % 3].clone())),
